@@ -303,6 +303,8 @@ void HttpMessage::readBody()
 		}
 		byte buffer[RECV_BLOCK_SIZE];
 		int maxToRead = _socket->available(), bytesRead = 0;
+		if (!chunked && maxToRead <= 0) // readable but nothing to read: the peer closed before sending the whole body
+			break;
 		if (chunked)
 		{
 			String chunkSize = _socket->readLine();
